@@ -40,6 +40,20 @@ class SilentStr(Exception):
         return ""
 
 
+class FalsyError(Exception):
+    """A result-like exception: truthy on success, raised (and falsy) on failure."""
+
+    def __bool__(self):
+        return False
+
+
+class EmptyErrors(Exception):
+    """An aggregate error that happens to hold no items: len() == 0, hence falsy."""
+
+    def __len__(self):
+        return 0
+
+
 class BaseSub(BaseException):
     pass
 
@@ -61,6 +75,10 @@ def make_exception(kind, pid):
         return OddInit(pid, 7)
     if kind == "SilentStr":
         return SilentStr()
+    if kind == "FalsyError":
+        return FalsyError(pid)
+    if kind == "EmptyErrors":
+        return EmptyErrors(pid)
     if kind == "WithCause":
         e = ValueError(pid)
         e.__cause__ = KeyError("inner " + pid)
@@ -98,7 +116,7 @@ def make_exception(kind, pid):
     raise ValueError("unknown exception kind %r" % kind)
 
 
-EXCEPTION_KINDS = ["LookupError", "KeyError", "ValueError", "OSError", "RuntimeError", "AssertionError", "OddInit", "SilentStr", "WithCause", "ExceptionGroup", "TimeoutError", "OrphanedReturn", "CancelledContext", "CancelledCause"]
+EXCEPTION_KINDS = ["LookupError", "KeyError", "ValueError", "OSError", "RuntimeError", "AssertionError", "OddInit", "SilentStr", "WithCause", "ExceptionGroup", "TimeoutError", "OrphanedReturn", "CancelledContext", "CancelledCause", "FalsyError", "EmptyErrors"]
 ODD_EXCEPTION_KINDS = ["StopIteration", "StopAsyncIteration"]
 BASE_KINDS = ["BaseException", "BaseSub", "SystemExit", "GeneratorExit"]
 
